@@ -572,7 +572,9 @@ func runBinding(r *vk.Run) int {
 				}
 			}
 		}
-		vk.ParallelFor(len(list), func(n int) {
+		nSingles := len(muts)
+		var bad sync.Map
+		work := func(n int) {
 			if r.Expired() {
 				return
 			}
@@ -589,6 +591,16 @@ func runBinding(r *vk.Run) int {
 				fields += "+" + muts[list[n].j].field
 			}
 			class := indexRe.ReplaceAllString(fields, "[]")
+			if list[n].j >= 0 {
+				fa, fb := indexRe.ReplaceAllString(muts[list[n].i].field, "[]"), indexRe.ReplaceAllString(muts[list[n].j].field, "[]")
+				class = pairClass(&bad, fa, fb)[len("field="):]
+			}
+			violated := func(key, what string, rep replay) {
+				if list[n].j < 0 {
+					bad.Store(class, true)
+				}
+				r.Violation(key, what, rep)
+			}
 			atomic.AddInt64(&cases, 1)
 			wire, err := encodeUTXO(c)
 			if err != nil {
@@ -602,7 +614,7 @@ func runBinding(r *vk.Run) int {
 			}
 			rep := replay{"base": b.spec.name, "mutation": name, "base_wire": hexb(b.wire), "case_wire": hexb(wire)}
 			if tx.PrefixHash() == basePrefix {
-				r.Violation("prefix-hash-does-not-cover:"+class, fmt.Sprintf("%s: PrefixHash unchanged after %s", b.spec.name, name), rep)
+				violated("prefix-hash-does-not-cover:"+class, fmt.Sprintf("%s: PrefixHash unchanged after %s", b.spec.name, name), rep)
 			}
 			// the whole check, as a node runs it
 			if full, _ := decodeUTXO(wire); full != nil {
@@ -611,7 +623,7 @@ func runBinding(r *vk.Run) int {
 					cerr = fmt.Errorf("panic: %v", v)
 				}
 				if cerr == nil {
-					r.Violation("mutated-spend-accepted:"+class, fmt.Sprintf("%s: CheckBasic accepts the transaction after %s (ring signatures were made for the original)", b.spec.name, name), rep)
+					violated("mutated-spend-accepted:"+class, fmt.Sprintf("%s: CheckBasic accepts the transaction after %s (ring signatures were made for the original)", b.spec.name, name), rep)
 				}
 			}
 			// the ring-signature check in isolation (CheckBasic's order up to it, without the balance equation)
@@ -638,7 +650,7 @@ func runBinding(r *vk.Run) int {
 					return
 				}
 				if msg == basePrefix || pre == basePre {
-					r.Violation("ring-message-does-not-cover:"+class, fmt.Sprintf("%s: the message of the ring signatures is unchanged after %s", b.spec.name, name), rep)
+					violated("ring-message-does-not-cover:"+class, fmt.Sprintf("%s: the message of the ring signatures is unchanged after %s", b.spec.name, name), rep)
 				}
 				verr = tx.VerifC08VerifyRing(pk)
 				stage = "ring"
@@ -653,9 +665,11 @@ func runBinding(r *vk.Run) int {
 			cnt, _ := perField.LoadOrStore(class, new(int64))
 			atomic.AddInt64(cnt.(*int64), 1)
 			if verr == nil {
-				r.Violation("ring-signature-not-bound-to:"+class, fmt.Sprintf("%s: the ring signatures made for the original still verify after %s", b.spec.name, name), rep)
+				violated("ring-signature-not-bound-to:"+class, fmt.Sprintf("%s: the ring signatures made for the original still verify after %s", b.spec.name, name), rep)
 			}
-		})
+		}
+		vk.ParallelFor(nSingles, work)
+		vk.ParallelFor(len(list)-nSingles, func(n int) { work(nSingles + n) })
 	}
 	if r.Expired() {
 		r.Capped("binding enumeration hit the deadline")
